@@ -320,6 +320,28 @@ type InlEvent struct {
 	Fn  *ssa.Function
 	Env map[ssa.Value]*X
 	Via []ssa.CallInstruction
+	// ViaEnv[i] is the parameter binding in force at Via[i] (nil for a call made by the walked function itself)
+	ViaEnv []map[ssa.Value]*X
+}
+
+// OuterFacts lists the branch facts in force at the event: those at the
+// instruction's own block and those at each call on the way to it, all in the
+// walked function's terms.
+func (c *Ctx) OuterFacts(ev InlEvent) []Fact {
+	var out []Fact
+	for _, f := range c.FactsAt(ev.In.Block()) {
+		out = append(out, Fact{Cond: subst(f.Cond, ev.Env), Val: f.Val, If: f.If})
+	}
+	for i, v := range ev.Via {
+		var env map[ssa.Value]*X
+		if i < len(ev.ViaEnv) {
+			env = ev.ViaEnv[i]
+		}
+		for _, f := range c.FactsAt(v.Block()) {
+			out = append(out, Fact{Cond: subst(f.Cond, env), Val: f.Val, If: f.If})
+		}
+	}
+	return out
 }
 
 // WalkInl visits the instructions of fn in dominator-tree preorder; at a
@@ -327,11 +349,11 @@ type InlEvent struct {
 // the helper's instructions (recursively, bounded), so that the sequence of
 // effects is seen in execution order regardless of how it is split into helpers.
 func (c *Ctx) WalkInl(fn *ssa.Function, depth int, visit func(ev InlEvent)) {
-	var rec func(g *ssa.Function, env map[ssa.Value]*X, via []ssa.CallInstruction, d int, stack map[*ssa.Function]bool)
-	rec = func(g *ssa.Function, env map[ssa.Value]*X, via []ssa.CallInstruction, d int, stack map[*ssa.Function]bool) {
+	var rec func(g *ssa.Function, env map[ssa.Value]*X, via []ssa.CallInstruction, venv []map[ssa.Value]*X, d int, stack map[*ssa.Function]bool)
+	rec = func(g *ssa.Function, env map[ssa.Value]*X, via []ssa.CallInstruction, venv []map[ssa.Value]*X, d int, stack map[*ssa.Function]bool) {
 		for _, b := range g.DomPreorder() {
 			for _, in := range b.Instrs {
-				visit(InlEvent{In: in, Fn: g, Env: env, Via: via})
+				visit(InlEvent{In: in, Fn: g, Env: env, Via: via, ViaEnv: venv})
 				ci, ok := in.(*ssa.Call)
 				if !ok || d <= 0 {
 					continue
@@ -341,12 +363,12 @@ func (c *Ctx) WalkInl(fn *ssa.Function, depth int, visit func(ev InlEvent)) {
 					continue
 				}
 				stack[callee] = true
-				rec(callee, c.callEnv(ci, callee, env), append(append([]ssa.CallInstruction{}, via...), ci), d-1, stack)
+				rec(callee, c.callEnv(ci, callee, env), append(append([]ssa.CallInstruction{}, via...), ci), append(append([]map[ssa.Value]*X{}, venv...), env), d-1, stack)
 				delete(stack, callee)
 			}
 		}
 	}
-	rec(fn, nil, nil, depth, map[*ssa.Function]bool{fn: true})
+	rec(fn, nil, nil, nil, depth, map[*ssa.Function]bool{fn: true})
 }
 
 // ---- results of multi-return helpers ----------------------------------------------------------------------------------
